@@ -93,6 +93,16 @@ theorem switch_table :
     (∀ cert addRoot aih, expectHandshake cert addRoot true aih = true) := by
   refine ⟨?_, ?_, ?_⟩ <;> intro cert <;> cases cert <;> decide
 
+/-- Which roots count: the chain is anchored iff the test CA itself was added, or the platform trusts it and the
+    platform's store was not switched off; adding some other root, with or without `CertificateStore::None`, changes
+    nothing. -/
+theorem trust_anchors :
+    (∀ sn p, anchored 1 sn p = true) ∧ (∀ r, r ≠ 1 → ∀ p, anchored r true p = false) ∧
+    (∀ r, r ≠ 1 → ∀ p, anchored r false p = p) := by
+  refine ⟨by intro sn p; simp [anchored], ?_, ?_⟩
+  · intro r hr p; simp [anchored, hr]
+  · intro r hr p; simp [anchored, hr]
+
 /-- non-vacuity: the response-injection script. With the buffer check the client stops after
     STARTTLS (QUIT in clear, no TLS session); without it the injected `AUTH LOGIN` would be used
     inside TLS although the server offers only PLAIN there. -/
